@@ -62,6 +62,15 @@ let aop_of (s : string) : aop =
   else if starts s "n:" then ANew (ni (int_of_string (String.sub s 2 (String.length s - 2))))
   else failwith ("bad arena op " ^ s)
 
+let mop_of (s : string) : mop =
+  if s = "x" then MSwap
+  else match s.[0] with
+    | 'i' -> let (i, n) = idx_arg s 1 in MInsert (i, ni n)
+    | 'e' -> let (i, n) = idx_arg s 1 in MErase (i, ni n)
+    | 'c' -> MClear (fst (idx_arg s 1))
+    | 'a' -> MAssign (fst (idx_arg s 1))
+    | _ -> failwith ("bad map op " ^ s)
+
 let fuse_of s = if s = "-" then None else Some (ni (int_of_string s))
 
 let () =
@@ -70,5 +79,6 @@ let () =
     match split_ws line with
     | id :: "vec" :: f :: ops -> show_result id (vec_case (fuse_of f) (List.map vop_of ops))
     | id :: "list" :: f :: ops -> show_result id (list_case (fuse_of f) (List.map lop_of ops))
+    | id :: "map" :: f :: ops -> show_result id (map_case (fuse_of f) (ni 3) (ni 3) (List.map mop_of ops))
     | id :: "arena" :: f :: bs :: ops -> show_result id (arena_case (fuse_of f) (ni (int_of_string bs)) (List.map aop_of ops))
     | _ -> ())
